@@ -21,6 +21,7 @@ type c08World struct {
 	done   chan struct{}
 	fin    chan struct{}
 	accepts int
+	early   bool
 }
 
 var c08 *c08World
@@ -68,14 +69,20 @@ func c08Create(id string) {
 	_, err := r.CreateContainer(context.Background(), &CreateContainerRequest{Pod: &PodSandbox{}, Container: &Container{Id: id}})
 	vassert(err == nil, "create-error")
 	vassert(len(r.plugins) == n0, "ghost-plugin-activated-while-a-sync-block-is-held")
-	b.Unblock()
+	if c08.early && id == "c-a" {
+		// "Safe to call multiple times": an early explicit Unblock followed by a second one
+		b.Unblock()
+		b.Unblock()
+	} else {
+		b.Unblock()
+	}
 	c08.fin <- struct{}{}
 }
 
 // H_C08_register_vs_create: one registering plugin, nCreators runtime goroutines each creating one container
 // inside a sync block (plus one container that exists before).
 //verif:property C08
-//verif:instances 2
+//verif:instances 3
 //verif:preempt 2
 //verif:maxgoroutines 8
 //verif:cut (*github.com/containerd/nri/pkg/adaptation.Adaptation).newExternalPlugin => verifC08NewExternal
@@ -95,6 +102,11 @@ func H_C08_register_vs_create() {
 		return err
 	}
 	nCreators := 1 + instance()
+	if instance() == 2 {
+		// two creators, one of which releases its block twice
+		nCreators = 2
+		c08.early = true
+	}
 	ids := []string{"c-a", "c-b"}
 	r.acceptPluginConnections(c08Listener{})
 	for i := 0; i < nCreators; i++ {
